@@ -469,6 +469,8 @@ class SimSolver:
         d = env.directive_for_check(k)
         latency = d.get("latency", env.default_latency)
         env.clock.advance(latency)
+        if latency < 0:
+            env.fault_fired("clock-step-back")
         ev = {"k": k, "latency": latency}
         timeout_s = env.virtual_timeout_s
         if d.get("verdict") == "unknown":
